@@ -107,17 +107,24 @@ CLAIMS = {
   "technique": "Lean 4 proof (walk prefix / commit-only-complete / FWalk 16-cut independence over an arbitrary tree given as a lookup function) + os.Lstat-oracle correspondence on random trees",
   "text": "walk_prefix (one qid per existing leading element, next one missing), walk_commits_only_complete (error iff the first element is "
           "missing; path committed iff all walked), fwalk_resolves (paths of any depth resolve to the same object wherever the 16-element cuts "
-          "fall) hold for every tree. Correspondence: stat of every object of random trees against os.Lstat (type bits, length, perms, mtime, "
+          "fall) hold for every tree; mode_reports_the_file and qid_type_reports_the_file (over G9.UfsMeta: low nine bits = permission bits, "
+          "DMDIR iff directory, the .u type bits iff the file has them and the connection is .u, nothing else; QTDIR/QTSYMLINK). Correspondence: the "
+          "whole table of dir2Npmode/dir2QidType (128 flag combinations x 5 permission words x both dialects) through a verif accessor; stat of every object of random trees against os.Lstat (type bits, length, perms, mtime, "
           "name, qid path), walks in place and to a new fid with the fids' targets checked.",
-  "note": TB + "Partial by nature: what the operating system does (Lstat, ReadAt/WriteAt, Readdir, the mutating calls) is assumed, written down in the model and exercised by the OS-oracle correspondence; what go9p computes around those calls is proved.  The qid/mode bit tables are checked against os.Lstat by the correspondence, not stated as theorems.",
+  "note": TB + "Partial by nature: what the operating system does (Lstat, ReadAt/WriteAt, Readdir, the mutating calls) is assumed, written down in the model and exercised by the OS-oracle correspondence; what go9p computes around those calls is proved.",
  },
  "C17": {
-  "technique": "Lean 4 proof (open-flag table for all 256 modes, kernel-checked decide) + twin-tree correspondence against the os package",
+  "technique": "Lean 4 proof (open-flag table for all 256 modes, kernel-checked decide; decision logic of Ufs.Create/Ufs.Wstat: which POSIX calls, with which arguments, in which order) + twin-tree correspondence against the os package + plan-tree correspondence",
   "text": "omode_flags_table: for every mode byte the flags passed to open are the access mode of the low two bits plus O_TRUNC iff OTRUNC, "
-          "nothing else (decide +kernel over the whole table, compared with the real table through a verif accessor). The rest of the property "
+          "nothing else (decide +kernel over the whole table, compared with the real table through a verif accessor). Over G9.UfsPlan: "
+          "wstat_asks_nothing_does_nothing, wstat_only_what_was_asked (chmod, chown, rename, truncate, chtimes in this order, each exactly when "
+          "the request names the field, with the request's value), wstat_rename_confined, mode_is_permission_bits (nine permission bits, "
+          "setuid/setgid only in .u, nothing else), create_makes_what_was_asked (at most one object; directory / symlink / hard link / regular "
+          "file according to the permission word), create_refusals_make_no_call. The plan is tied to Ufs by applying it to a third tree that "
+          "must stay identical to the exported one after every request, failure or not. The rest of the property "
           "is POSIX semantics: random mutation sequences are applied through 9P to one tree and with the os package to its twin and the trees, "
           "outcomes and (in .u) errnos compared after every step.",
-  "note": TB + "Partial by nature: what the operating system does (Lstat, ReadAt/WriteAt, Readdir, the mutating calls) is assumed, written down in the model and exercised by the OS-oracle correspondence; what go9p computes around those calls is proved.  The wstat/create plan theorems of DESIGN section 5 are not built; C17 rests mostly on the twin-tree run (labelled testing).",
+  "note": TB + "Partial by nature: what the operating system does (Lstat, ReadAt/WriteAt, Readdir, the mutating calls) is assumed, written down in the model and exercised by the OS-oracle correspondence; what go9p computes around those calls is proved.  By-name owner lookups (plain 9P2000 Twstat naming a uid/gid) are in the plan model but not exercised by the correspondence.",
  },
  "C18": {
   "technique": "Lean 4 proof (lexical confinement: cleaned paths cannot climb, every accepted walk/create step keeps the root as prefix, by induction over any request sequence) + canary correspondence",
